@@ -1,5 +1,106 @@
-import PyAirtouch.Model.Sock
-/-! placeholder until the proof files are merged -/
+import PyAirtouch.Lemmas.SockQueue
+/-!
+# C16 — bounded buffer
+
+Theorems about the model `PyAirtouch.Model.Sock` of `AirTouchSocket`: the message queue is bounded,
+overflow and not-open are reported explicitly, expired entries are discarded before the capacity
+test.  Every statement holds for every schedule and every environment behaviour.
+-/
 namespace PyAirtouch.Props.C16
-theorem C16_placeholder : True := trivial
+open PyAirtouch.Model.Sock PyAirtouch.Spec.Trace PyAirtouch.Lemmas.Sock
+
+/-- entries that were never put back by the retry path never exceed the capacity -/
+theorem C16_fresh_bound {s : Sys} :
+    Reachable s → (s.core.queue.filter (fun e => !e.requeued)).length ≤ CAP :=
+  fresh_bound_of_reachable
+
+/-- ten sends while the link is down: the bound is attained -/
+example : ∃ s, Reachable s ∧ (s.core.queue.filter (fun e => !e.requeued)).length = CAP :=
+  ⟨_, ⟨.apiOpen :: (List.range 10).map (fun i => .apiSend i 2 240 true), rfl⟩, by decide⟩
+
+/-- as long as nothing has been re-queued the queue holds at most ten messages -/
+theorem C16_bound {s : Sys} :
+    Reachable s → (∀ e ∈ s.core.queue, e.requeued = false) → s.core.queue.length ≤ 10 := by
+  intro h hq
+  have := C16_fresh_bound h
+  rwa [List.filter_eq_self.2 (fun e he => by simp [hq e he])] at this
+
+example : ∃ s, Reachable s ∧ (∀ e ∈ s.core.queue, e.requeued = false) ∧ s.core.queue.length = 10 :=
+  ⟨_, ⟨.apiOpen :: (List.range 10).map (fun i => .apiSend i 2 240 true), rfl⟩, by decide⟩
+
+
+/-- a send that finds the buffer full (after discarding what has expired) is rejected explicitly:
+    nothing is queued, nothing is written, the connection is untouched -/
+theorem C16_overflow_explicit {s s' : Sys} {sid r l : Nat} {ok : Bool}
+    (hopen : s.core.isOpen = true) (hfull : CAP ≤ (purged s.core.now s.core.queue).length)
+    (hs : step s (.apiSend sid r l ok) = some s') :
+    s'.core.queue = purged s.core.now s.core.queue ∧
+    s'.core.trace = s.core.trace ++ purgeEvents s.core.now s.core.queue ++ [.reject sid s.core.now .overflow] ∧
+    s'.core.conns = s.core.conns ∧ s'.core.rw = s.core.rw ∧ s'.core.isConnected = s.core.isConnected := by
+  simp only [step, hopen, Bool.not_true, Bool.false_eq_true, ↓reduceIte, ge_iff_le, hfull,
+    Option.some.injEq] at hs
+  subst hs
+  simp [spawnApi, Core.emit]
+
+/-- eleven sends while the link is down: the eleventh is rejected with `overflow` -/
+example : ∃ s s', Reachable s ∧ s.core.isOpen = true ∧ CAP ≤ (purged s.core.now s.core.queue).length ∧
+    step s (.apiSend 10 2 240 true) = some s' ∧ s'.core.trace.getLast? = some (.reject 10 0 .overflow) :=
+  ⟨_, _, ⟨.apiOpen :: (List.range 10).map (fun i => .apiSend i 2 240 true), rfl⟩, by decide, by decide, rfl, by decide⟩
+
+/-- a send on a socket that is not open is rejected explicitly and changes nothing -/
+theorem C16_not_open {s s' : Sys} {sid r l : Nat} {ok : Bool}
+    (hclosed : s.core.isOpen = false) (hs : step s (.apiSend sid r l ok) = some s') :
+    s'.core.queue = s.core.queue ∧ s'.core.trace = s.core.trace ++ [.reject sid s.core.now .notOpen] := by
+  simp only [step, hclosed, Bool.not_false, ↓reduceIte, Option.some.injEq] at hs
+  subst hs
+  simp [spawnApi, Core.emit]
+
+example : ∃ s s', Reachable s ∧ s.core.isOpen = false ∧ step s (.apiSend 7 2 240 true) = some s' :=
+  ⟨_, _, ⟨[.apiOpen, .apiSend 1 2 240 true, .apiClose], rfl⟩, by decide, rfl⟩
+
+/-- with room in the buffer and no connection the message is queued behind the unexpired ones -/
+theorem C16_accept_when_room {s s' : Sys} {sid r l : Nat} {ok : Bool}
+    (hopen : s.core.isOpen = true) (hroom : (purged s.core.now s.core.queue).length < CAP)
+    (hdown : s.core.isConnected = false) (hs : step s (.apiSend sid r l ok) = some s') :
+    s'.core.queue = purged s.core.now s.core.queue ++ [⟨sid, r, s.core.now + l, ok, false⟩] ∧
+    s'.core.trace = s.core.trace ++ purgeEvents s.core.now s.core.queue ++
+      [.accept sid s.core.now (s.core.now + l) r ok] := by
+  have hroom' : ¬ CAP ≤ (purged s.core.now s.core.queue).length := by omega
+  simp only [step, hopen, Bool.not_true, Bool.false_eq_true, ↓reduceIte, ge_iff_le, hroom',
+    Option.some.injEq] at hs
+  subst hs
+  simp [spawnApi, Core.emit, FUEL, exec, hdown]
+
+/-- two sends with a short life, the clock passes their expiry, a third send purges them -/
+example : ∃ s s', Reachable s ∧ s.core.isOpen = true ∧ (purged s.core.now s.core.queue).length < CAP ∧
+    s.core.isConnected = false ∧ step s (.apiSend 3 2 240 true) = some s' ∧
+    s.core.queue.length = 2 ∧ s'.core.queue = [⟨3, 2, 250, true, false⟩] :=
+  ⟨_, _, ⟨[.apiOpen, .apiSend 1 0 8 true, .apiSend 2 0 8 true, .advance 10], rfl⟩,
+    by decide, by decide, by decide, rfl, by decide, by decide⟩
+
+/-- "expired entries are discarded first": the purge removes exactly the entries whose expiry has
+    been reached, keeps the others in order, and logs one `expired` drop per removed entry -/
+theorem C16_purged_are_expired_only (now : Nat) (q : List Entry) :
+    (purged now q).Sublist q ∧
+    (∀ e ∈ q, (e ∈ purged now q ↔ now < e.expiry) ∧ (e ∉ purged now q ↔ e.expiry ≤ now)) ∧
+    (∀ ev ∈ purgeEvents now q, ∃ e ∈ q, e.expiry ≤ now ∧ e ∉ purged now q ∧ ev = .qdrop e.sid now .expired) ∧
+    (∀ e ∈ q, e.expiry ≤ now → Ev.qdrop e.sid now .expired ∈ purgeEvents now q) := by
+  refine ⟨List.filter_sublist, ?_, ?_, ?_⟩
+  · intro e he
+    simp only [purged, List.mem_filter, he, true_and, decide_eq_true_eq]
+    omega
+  · intro ev hev
+    simp only [purgeEvents, List.mem_map, List.mem_filter, List.mem_reverse, decide_eq_true_eq] at hev
+    obtain ⟨e, ⟨he, hexp⟩, rfl⟩ := hev
+    refine ⟨e, he, hexp, ?_, rfl⟩
+    simp only [purged, List.mem_filter, he, true_and, decide_eq_true_eq]
+    omega
+  · intro e he hexp
+    simp only [purgeEvents, List.mem_map, List.mem_filter, List.mem_reverse, decide_eq_true_eq]
+    exact ⟨e, ⟨he, hexp⟩, rfl⟩
+
+example : purged 10 [⟨1, 0, 8, true, false⟩, ⟨2, 0, 20, true, false⟩, ⟨3, 0, 10, true, false⟩] = [⟨2, 0, 20, true, false⟩] ∧
+    purgeEvents 10 [⟨1, 0, 8, true, false⟩, ⟨2, 0, 20, true, false⟩, ⟨3, 0, 10, true, false⟩] =
+      [.qdrop 3 10 .expired, .qdrop 1 10 .expired] := by decide
+
 end PyAirtouch.Props.C16
